@@ -17,7 +17,6 @@ type Plan map[string][2]int // kind -> {quick, thorough}
 // violations tagged with prop. crashIsViolation: a process death while the
 // pipeline runs refutes the property (C02/C04/C05) or is only inconclusive (C01).
 func RunProperty(c *core.Ctx, prop string, plan Plan, crashIsViolation bool, extraCases []Case) {
-	rng := c.Rand("pipemon-cases")
 	var cases []Case
 	kinds := make([]string, 0, len(plan))
 	for k := range plan {
@@ -29,6 +28,7 @@ func RunProperty(c *core.Ctx, prop string, plan Plan, crashIsViolation bool, ext
 			continue // debugging aid
 		}
 		n := c.N(plan[k][0], plan[k][1])
+		rng := c.Rand("pipemon-cases-" + k) // one stream per family: families do not shift each other
 		for i := 0; i < n; i++ {
 			DirectedIndex = i
 			cases = append(cases, GenCase(rng, c.SubSeed(k, i), k))
